@@ -157,6 +157,10 @@ class Sim:
         if kind == 'destroy':
             conn = self._val(g.S_WL_CONNECTION.pointer(), ev['connection'])
             return 'wl_connection_destroy', g.Frame('wl_connection_destroy', {'connection': conn})
+        if kind == 'enter':
+            # the inferior passes through some other libwayland function (the plugin has no business there)
+            types = {'client': g.S_WL_CLIENT, 'display': g.S_WL_DISPLAY, 'connection': g.S_WL_CONNECTION}
+            return ev['func'], g.Frame(ev['func'], {k: self._val(types[k].pointer(), v) for k, v in ev['vars'].items()})
         raise ValueError(kind)
 
     def deliver(self, ev):
@@ -185,6 +189,14 @@ class Sim:
         n0 = len(g.STATE.executed)
         cmd.invoke(arg, True)
         return g.STATE.executed[n0:]
+
+
+# other entry points of libwayland a live program passes through all the time, with the parameter that leads to the connection
+OTHER_FUNCTIONS = {'wl_client_destroy': 'client', 'wl_client_flush': 'client', 'wl_client_get_credentials': 'client', 'wl_client_post_no_memory': 'client',
+                   'wl_display_disconnect': 'display', 'wl_display_flush': 'display', 'wl_display_roundtrip': 'display', 'wl_display_dispatch_pending': 'display',
+                   'wl_display_read_events': 'display', 'wl_display_get_error': 'display',
+                   'wl_connection_flush': 'connection', 'wl_connection_read': 'connection', 'wl_connection_write': 'connection', 'wl_connection_consume': 'connection'}
+TEARDOWN = {'client': 'wl_display_disconnect', 'server': 'wl_client_destroy'}
 
 
 class GdbSession:
@@ -283,6 +295,12 @@ class GdbSession:
 
     def deliver(self, ev):
         return self.sim.deliver(ev)
+
+    def enter(self, key, func, thread=1):
+        """the inferior enters another libwayland function on behalf of this connection"""
+        c = self.conns[key]
+        var = OTHER_FUNCTIONS[func]
+        return self.sim.deliver({'kind': 'enter', 'func': func, 'vars': {var: c['addr'] if var == 'connection' else c[var]}, 'thread': thread})
 
     def destroy(self, addr, thread=1):
         return self.sim.deliver({'kind': 'destroy', 'connection': addr, 'thread': thread})
